@@ -260,10 +260,16 @@ def as_comprehension(prog, cls, f, e):
         if ex is not e:
             return as_comprehension(prog, cls, f, ex)
         return comprehension_of(f.node, e.id)
-    if isinstance(e, ast.Call) and isinstance(e.func, ast.Attribute) and isinstance(e.func.value, ast.Name) \
+    g = None
+    nested_ok = False
+    if isinstance(e, ast.Call) and isinstance(e.func, ast.Name) and not e.args and not e.keywords and e.func.id in getattr(f, "nested", {}):
+        g = f.nested[e.func.id]                   # a parameterless generator function defined inside f (it sees f's `self`)
+        nested_ok = True
+    elif isinstance(e, ast.Call) and isinstance(e.func, ast.Attribute) and isinstance(e.func.value, ast.Name) \
             and e.func.value.id == f.self_name and not e.args and not e.keywords and cls is not None:
         g = prog.resolve(cls, e.func.attr)
-        if g is not None and g.is_generator and g.self_name == f.self_name or (g is not None and g.is_generator):
+    if g is not None:
+        if g is not None and g.is_generator and (nested_ok or g.self_name == f.self_name) or (g is not None and g.is_generator):
             body = [st for st in g.node.body if not (isinstance(st, ast.Expr) and isinstance(st.value, ast.Constant))]
             def yielded(st):
                 """the expression a one-statement loop body yields: `yield E`, or `if c: yield A else: yield B` as a conditional"""
@@ -275,11 +281,26 @@ def as_comprehension(prog, cls, f, e):
                         return ast.copy_location(ast.IfExp(test=st.test, body=a_, orelse=b_), st)
                 return None
             if len(body) == 1 and isinstance(body[0], ast.For) and not body[0].orelse and len(body[0].body) == 1 \
-                    and yielded(body[0].body[0]) is not None and g.self_name == f.self_name:
+                    and yielded(body[0].body[0]) is not None and (nested_ok or g.self_name == f.self_name):
                 lp = body[0]
                 comp = ast.GeneratorExp(elt=yielded(lp.body[0]),
                                         generators=[ast.comprehension(target=lp.target, iter=lp.iter, ifs=[], is_async=0)])
                 return ast.copy_location(comp, lp)
+            # for i in range(len(L)): x = L[i]; <yield>      ==      for i, x in enumerate(L): <yield>
+            if len(body) == 1 and isinstance(body[0], ast.For) and not body[0].orelse and len(body[0].body) == 2 \
+                    and isinstance(body[0].target, ast.Name) and isinstance(body[0].iter, ast.Call) and src(body[0].iter.func) == "range" \
+                    and len(body[0].iter.args) == 1 and isinstance(body[0].iter.args[0], ast.Call) and src(body[0].iter.args[0].func) == "len" \
+                    and (nested_ok or g.self_name == f.self_name):
+                lp = body[0]
+                seq = body[0].iter.args[0].args[0]
+                first = lp.body[0]
+                if isinstance(first, ast.Assign) and len(first.targets) == 1 and isinstance(first.targets[0], ast.Name) \
+                        and isinstance(first.value, ast.Subscript) and src(first.value.value) == src(seq) \
+                        and src(first.value.slice) == lp.target.id and yielded(lp.body[1]) is not None:
+                    tgt = ast.Tuple(elts=[ast.Name(id=lp.target.id, ctx=ast.Store()), ast.Name(id=first.targets[0].id, ctx=ast.Store())], ctx=ast.Store())
+                    it = ast.Call(func=ast.Name(id="enumerate", ctx=ast.Load()), args=[seq], keywords=[])
+                    comp = ast.GeneratorExp(elt=yielded(lp.body[1]), generators=[ast.comprehension(target=tgt, iter=it, ifs=[], is_async=0)])
+                    return ast.fix_missing_locations(ast.copy_location(comp, lp))
     return None
 
 
@@ -307,3 +328,54 @@ def expand_all(e, flow, keep=()):
                 setattr(new, name, getattr(x, name))
         return new
     return go(e, 0)
+
+
+
+def alias_classes(fnode, self_name=None):
+    """same(a, b): do the two simple expressions (a local name or `self.<field>`) name one object?  Classes are built from the plain
+    copies of the function -- `a = b`, `self.x = b`, `a, self.y = b, c` -- between names / fields that are each assigned exactly once
+    (what the inliner produces when it binds parameters and returned tuples).  Two different texts in one class are one list."""
+    def key(e):
+        if isinstance(e, ast.Name):
+            return e.id
+        if isinstance(e, ast.Attribute) and isinstance(e.value, ast.Name) and (self_name is None or e.value.id == self_name):
+            return f"{e.value.id}.{e.attr}"
+        return None
+    counts = {}
+    pairs = []
+    for n in ast.walk(fnode):
+        if isinstance(n, (ast.FunctionDef, ast.AsyncFunctionDef, ast.Lambda)) and n is not fnode:
+            continue
+        if isinstance(n, ast.Assign) and len(n.targets) == 1:
+            t, v = n.targets[0], n.value
+            items = list(zip(t.elts, v.elts)) if isinstance(t, (ast.Tuple, ast.List)) and isinstance(v, (ast.Tuple, ast.List)) \
+                and len(t.elts) == len(v.elts) else [(t, v)]
+            for a, b in items:
+                ka = key(a)
+                if ka is not None:
+                    counts[ka] = counts.get(ka, 0) + 1
+                    if key(b) is not None:
+                        pairs.append((ka, key(b)))
+        elif isinstance(n, (ast.AugAssign, ast.AnnAssign, ast.For, ast.comprehension, ast.With)):
+            for x in ast.walk(getattr(n, "target", None) or ast.Pass()):
+                k = key(x) if isinstance(x, (ast.Name, ast.Attribute)) else None
+                if k is not None:
+                    counts[k] = counts.get(k, 0) + 2
+    parent = {}
+
+    def find(x):
+        parent.setdefault(x, x)
+        while parent[x] != x:
+            parent[x] = parent[parent[x]]
+            x = parent[x]
+        return x
+    for a, b in pairs:
+        if counts.get(a, 0) == 1 and counts.get(b, 0) <= 1:
+            parent[find(a)] = find(b)
+
+    def same(e1, e2) -> bool:
+        k1, k2 = (key(e1) if isinstance(e1, ast.AST) else e1), (key(e2) if isinstance(e2, ast.AST) else e2)
+        if k1 is None or k2 is None:
+            return isinstance(e1, ast.AST) and isinstance(e2, ast.AST) and src(e1) == src(e2)
+        return k1 == k2 or find(k1) == find(k2)
+    return same
